@@ -21,7 +21,7 @@ FUZZ_RUNS = 4000
 BUDGET = {'quick': 300, 'thorough': 6000}
 TYPES = ['LINKED', 'PERMUTATION', 'UNORDERED', 'UNORDERED_NOREPL']
 PLACEMENTS = ['perm', 'hier_first', 'hier_last', 'hier_rev_first', 'hier_rev_last', 'mutex', 'two_plus_cond',
-              'two_plus_cond_rev']
+              'two_plus_cond_rev', 'pool', 'window']
 
 
 def con_spec(t, n_ch, n_opt, placement):
@@ -35,7 +35,20 @@ def con_spec(t, n_ch, n_opt, placement):
         opts[i] = [f'{ids[i]}o{j}' for j in range(n_opt)]
         for o in opts[i]:
             nodes[o] = {'k': 'gen'}
-    if placement == 'perm':
+    if placement in ('pool', 'window'):
+        # shared option nodes: one pool for all constrained choices, or overlapping sliding windows of a longer pool; every
+        # choice on its own permanent originating node (so that equal selections stay distinguishable)
+        for o in [o_ for i in range(n_ch) for o_ in opts[i]]:
+            del nodes[o]
+        pool = [f'po{j}' for j in range(n_opt+(n_ch-1 if placement == 'window' else 0))]
+        for o in pool:
+            nodes[o] = {'k': 'gen'}
+        origins = []
+        for i in range(n_ch):
+            opts[i] = pool[i:i+n_opt] if placement == 'window' else list(pool)
+            nodes[f'h{i}'] = {'k': 'gen'}
+            origins.append(f'h{i}')
+    elif placement == 'perm':
         origins = ['s']*n_ch
     elif placement.startswith('hier'):
         pick = 0 if placement.endswith('first') else n_opt-1
@@ -54,7 +67,8 @@ def con_spec(t, n_ch, n_opt, placement):
         raise ValueError(placement)
     for i in range(n_ch):
         choices.append({'id': ids[i], 'origin': origins[i], 'opts': opts[i]})
-    return {'salt': 0, 'nodes': nodes, 'edges': [], 'choices': choices, 'incompat': [], 'start': ['s'], 'conns': [],
+    edges = [['s', f'h{i}'] for i in range(n_ch)] if placement in ('pool', 'window') else []
+    return {'salt': 0, 'nodes': nodes, 'edges': edges, 'choices': choices, 'incompat': [], 'start': ['s'], 'conns': [],
             'cons': [{'type': t, 'on': sorted(ids), 'placement': placement}]}
 
 
